@@ -298,7 +298,12 @@ class Interp:
         return self.path_value(e, env)
 
     def ev_constblock(self, e, env):
-        return ()   # `const { assert!(..) }`: checked by the compiler
+        if "e" in e:
+            try:
+                return self.ev(e["e"], env)
+            except Panic:
+                raise
+        return ()
 
     def ev_use(self, e, env):
         return self.ev(e["e"], env)
